@@ -221,7 +221,7 @@ func (e *Enc) callContract(fr *Frame, st *State, c *ssa.Call, callee *ssa.Functi
 		}
 	}
 	if e.readerUF(callee) {
-		e.ufResult(fr, c, e.readerName(callee, st), args, cc.Args)
+		e.readerResult(fr, c, e.readerName(callee, st), st, args, cc.Args)
 	} else if pure || e.spec.pure[shortName(callee)] {
 		e.ufResult(fr, c, "X_"+san(shortName(callee)), args, cc.Args)
 	} else {
@@ -237,7 +237,7 @@ func (e *Enc) callContract(fr *Frame, st *State, c *ssa.Call, callee *ssa.Functi
 	} else if len(rn) == 1 {
 		vars[rn[0]] = tval{t: fr.vals[c], typ: callee.Signature.Results().At(0).Type()}
 	}
-	post := &ExprEnv{e: e, fr: fr, vars: vars, st: st, old: pre, a0: pre.nxt, pkg: pkgOf(callee)}
+	post := &ExprEnv{e: e, fr: fr, vars: vars, st: st, old: pre, a0: pre.nxt, pkg: pkgOf(callee), assuming: true}
 	for _, r := range ct.Ensures {
 		post.errs = nil
 		f, err := post.formula(r.Text)
@@ -285,7 +285,7 @@ func (e *Enc) callIfaceContract(fr *Frame, st *State, c *ssa.Call, ct *Contract,
 	} else if len(rn) == 1 {
 		vars[rn[0]] = tval{t: fr.vals[c], typ: sig.Results().At(0).Type()}
 	}
-	post := &ExprEnv{e: e, fr: fr, vars: vars, st: st, old: pre, a0: pre.nxt, pkg: env.pkg}
+	post := &ExprEnv{e: e, fr: fr, vars: vars, st: st, old: pre, a0: pre.nxt, pkg: env.pkg, assuming: true}
 	for _, r := range ct.Ensures {
 		post.errs = nil
 		f, err := post.formula(r.Text)
@@ -470,6 +470,13 @@ func (e *Enc) mutatorCall(fr *Frame, st *State, c *ssa.Call, callee *ssa.Functio
 					e.declHeapFn(fn, h)
 					ns := e.newState(sFill, st)
 					ns.heap, ns.loc, ns.fn = h, Loc{ref}, fn
+					st = ns
+					continue
+				}
+			}
+			// sort.Sort(x) on a value whose Swap method is under contract: sort writes exactly what Swap may write
+			if mi, ok := a.(*ssa.MakeInterface); ok {
+				if done, ns := e.sortViaSwapContract(fr, st, c, mi); done {
 					st = ns
 					continue
 				}
@@ -1018,6 +1025,42 @@ func (e *Enc) bodyVars(fr *Frame, li *loopInfo, at *ssa.BasicBlock, st *State, v
 // the variable wins.
 func (e *Enc) debugVars(fr *Frame, at *ssa.BasicBlock, st *State, vars map[string]tval) {
 	found := map[string]bool{}
+	// variables that live in memory (address taken or captured): always the current content of their cell.
+	// If several variables share a name, the declaration nearest before `at` in source order wins.
+	type cellCand struct {
+		a   *Addr
+		typ types.Type
+		pos token.Pos
+	}
+	cells := map[string]cellCand{}
+	for _, b := range fr.fn.Blocks {
+		for _, in := range b.Instrs {
+			d, ok := in.(*ssa.DebugRef)
+			if !ok || !d.IsAddr || d.Object() == nil {
+				continue
+			}
+			al, ok := d.X.(*ssa.Alloc)
+			if !ok {
+				continue
+			}
+			ref, ok := fr.vals[al]
+			if !ok || !(al.Block() == at || al.Block().Dominates(at)) {
+				continue
+			}
+			n := d.Object().Name()
+			el := al.Type().Underlying().(*types.Pointer).Elem()
+			c := cellCand{e.addrOfRef(ref, el), el, d.Object().Pos()}
+			if old, ok := cells[n]; !ok || c.pos > old.pos {
+				cells[n] = c
+			}
+		}
+	}
+	for n, c := range cells {
+		found[n] = true
+		if _, ok := vars[n]; !ok {
+			vars[n] = tval{typ: c.typ, cell: c.a}
+		}
+	}
 	for b := at; b != nil; b = b.Idom() {
 		local := map[string]tval{}
 		for _, in := range b.Instrs {
@@ -1131,6 +1174,7 @@ func (e *Enc) verifyFunc() {
 		}
 		for _, mt := range e.modTargets(pre, ct) {
 			fr.modRefs = append(fr.modRefs, mt.ref)
+			e.writesOld = true
 		}
 	}
 	e.encodeBody(fr, st, "true")
@@ -1415,4 +1459,38 @@ func (e *Enc) siteGhosts(fr *Frame, b *ssa.BasicBlock, st *State) {
 			e.ghost[sc.Name] = g
 		}
 	}
+}
+
+// sortViaSwapContract: the effect of sort.Sort/Stable(x) is that of calling x.Swap (and x.Less, which is
+// read-only by FRAME) repeatedly; with a contract on Swap its modifies clause is the effect.
+func (e *Enc) sortViaSwapContract(fr *Frame, st *State, c *ssa.Call, mi *ssa.MakeInterface) (bool, *State) {
+	T := mi.X.Type()
+	sel := e.w.prog.MethodSets.MethodSet(T).Lookup(nil, "Swap")
+	if sel == nil {
+		return false, st
+	}
+	swap := e.w.prog.MethodValue(sel)
+	ct := e.spec.contractFor(swap)
+	if swap == nil || ct == nil || len(ct.Modifies) == 0 {
+		return false, st
+	}
+	vars := map[string]tval{}
+	names := paramNames(swap, ct)
+	if len(names) == 0 {
+		return false, st
+	}
+	vars[names[0]] = tval{t: e.val(fr, mi.X), typ: T}
+	env := &ExprEnv{e: e, fr: fr, vars: vars, st: st, old: st, a0: fr.a0, pkg: pkgOf(swap)}
+	for _, mt := range e.modTargets(env, ct) {
+		e.frameOb(fr, c.Pos(), e.exprText(c.Pos(), "call"), mt.ref, "")
+		for _, h := range mt.heaps {
+			e.n++
+			fn := fmt.Sprintf("HM%d_%s", e.n, h)
+			e.declHeapFn(fn, h)
+			ns := e.newState(sFill, st)
+			ns.heap, ns.loc, ns.fn = h, Loc{mt.ref}, fn
+			st = ns
+		}
+	}
+	return true, st
 }
